@@ -64,6 +64,7 @@ def chunks(tier):
             out.append(("L", b["LMAX"], first, order))
     out += [("H", i, b["bfs_depth"]) for i in range(4)]
     out += [("U", i) for i in range(3)] + [("A",)]
+    out += [("CH", n, k) for n in (5, 6) for k in range(4)] + [("CC", k) for k in range(len(CONCAT_SYSTEMS))]
     return out
 
 
@@ -217,6 +218,13 @@ def check_queries(res, rs, seq, subs, case, light=False):
     except Exception as e:
         got = "EXC %s" % type(e).__name__
     cmp("categorize_substances", got, model_categories(seq, subs))
+    if not light:
+        # keyword arguments are handed on to the temporary system the categories are computed on: they must not change the answer
+        try:
+            got = rs.categorize_substances(checks=(), sort_substances=True)
+        except Exception as e:
+            got = "EXC %s" % type(e).__name__
+        cmp("categorize_substances:sort_substances=True", got, model_categories(seq, subs))
     # forward/backward pairs
     try:
         got = [tuple(p) for p in rs.identify_equilibria()]
@@ -512,15 +520,99 @@ def run_arrays(res):
                     bad.append(("per_substance_varied", keys))
             except Exception as e:
                 bad.append(("EXC", type(e).__name__))
+            if not bad:
+                # the same system after its substances were re-ordered in place: every conversion follows the new order
+                try:
+                    rs.sort_substances_inplace(key=lambda kv: -ord(kv[0]) if subs[0] < subs[-1] else ord(kv[0]))
+                    subs2 = tuple(rs.substances)
+                    if list(rs.as_per_substance_array(d)) != [d[s] for s in subs2] or [rs.as_substance_index(s) for s in subs2] != list(range(len(subs2))):
+                        bad.append(("as_substance_index/array after sort_substances_inplace", [rs.as_substance_index(s) for s in subs2]))
+                    out2, keys2 = rs.per_substance_varied(d, {subs2[0]: [17, 19]})
+                    if [list(r) for r in out2] != [[17 if s == subs2[0] else d[s] for s in subs2], [19 if s == subs2[0] else d[s] for s in subs2]]:
+                        bad.append(("per_substance_varied after sort_substances_inplace", [list(r) for r in out2]))
+                    rs.sort_substances_inplace(key=lambda kv: subs.index(kv[0]))
+                except Exception as e:
+                    bad.append(("EXC after sort_substances_inplace", type(e).__name__))
             res.outcomes["arrays-ok" if not bad else "arrays-WRONG"] += 1
             if bad:
                 res.violation("C15|%s|order" % bad[0][0], "per-substance conversion %r on substances %r with %r" % (bad, subs, d), dict(layer="A", seq=list(seq), subs="".join(subs), vals=list(vals)), bad, None)
     res.sample(dict(layer="A", example="as_per_substance_array({'A': 2, ...}) in substance order 'GFECBA'"))
 
 
+def run_chains(res, n, k):
+    """a path of n isomerisations X0-X1-...-Xn listed in EVERY order: one component whatever the order (the grouping in
+    split is greedy and must keep fusing until nothing is left to fuse)"""
+    from chempy import Reaction, ReactionSystem
+
+    names = [chr(ord("A") + i) for i in range(n + 1)]
+    perms = list(itertools.permutations(range(n)))
+    for pi in range(k, len(perms), 4):
+        perm = perms[pi]
+        res.states += 1
+        res.transitions += n
+        res.nontrivial += 1
+        res.evaluations += 1
+        case = dict(layer="CH", n=n, perm=list(perm))
+        try:
+            rs = ReactionSystem([Reaction({names[e]: 1}, {names[e + 1]: 1}, e + 2) for e in perm], names, checks=())
+            parts = rs.split(checks=())
+            got = sorted((sorted(str(r) for r in p.rxns), list(p.substances)) for p in parts)
+        except Exception as e:
+            got = "EXC %s" % type(e).__name__
+        ok = isinstance(got, list) and len(got) == 1 and len(got[0][0]) == n and got[0][1] == names
+        res.outcomes["chain-ok" if ok else "chain-WRONG"] += 1
+        if not ok:
+            res.violation("C15|split|mismatch|chain", "the chain %s listed in order %r splits into %r; it is one connected component" % ("-".join(names), list(perm), got), case, got, "one sub-system")
+    res.sample(dict(layer="CH", chain="-".join(names), orders=len(perms)))
+
+
+CONCAT_SYSTEMS = [((0, 3), "ABCD"), ((1, 2), "ABC"), ((12, 4), "ABDE"), ((0, 5, 7), "ABCEF"), ((3, 8, 1), "ABCD")]
+
+
+def run_concat(res, first):
+    """ReactionSystem.concatenate over every ordered selection of 2-4 of five small systems that share stoichiometries:
+    (sum, duplicates) against the definition (a reaction whose four stoichiometry dicts equal those of a reaction already
+    in the sum when its system is processed goes to the duplicates)"""
+    from chempy import ReactionSystem
+
+    others = [i for i in range(len(CONCAT_SYSTEMS)) if i != first]
+    for n in (2, 3, 4):
+        for rest in itertools.permutations(others, n - 1):
+            sel = (first,) + rest
+            res.states += 1
+            res.transitions += n
+            res.nontrivial += 1
+            res.evaluations += 1
+            case = dict(layer="CC", sel=list(sel))
+            _SUBST.clear()
+            rx = {i: mk_rxn(i) for i in range(len(POOL))}
+            systems = [mk_sys(CONCAT_SYSTEMS[i][0], tuple(CONCAT_SYSTEMS[i][1]), rx) for i in sel]
+            stoich = lambda i: POOL[i]
+            msum = list(CONCAT_SYSTEMS[sel[0]][0])
+            mskip = []
+            for i in sel[1:]:
+                cur = list(msum)
+                for r in CONCAT_SYSTEMS[i][0]:
+                    (mskip if any(stoich(r) == stoich(q) for q in cur) else msum).append(r)
+            try:
+                tot, dup = ReactionSystem.concatenate(systems)
+                got = (ids_of(tot, rx), ids_of(dup, rx))
+            except Exception as e:
+                got = "EXC %s" % type(e).__name__
+            exp = (tuple(msum), tuple(mskip))
+            res.outcomes["concat-ok" if got == exp else "concat-WRONG"] += 1
+            if got != exp:
+                res.violation("C15|concatenate|sum-and-duplicates", "concatenate(%r) = (sum %r, duplicates %r); by the definition %r" % ([CONCAT_SYSTEMS[i][0] for i in sel], got[0] if isinstance(got, tuple) else got, got[1] if isinstance(got, tuple) else None, exp), case, got, exp)
+    res.sample(dict(layer="CC", first=list(CONCAT_SYSTEMS[first][0])))
+
+
 def run_chunk(chunk, tier):
     res = Result()
-    if chunk[0] == "L":
+    if chunk[0] == "CH":
+        run_chains(res, chunk[1], chunk[2])
+    elif chunk[0] == "CC":
+        run_concat(res, chunk[1])
+    elif chunk[0] == "L":
         run_lists(res, chunk[1], chunk[2], chunk[3])
     elif chunk[0] == "H":
         run_bfs(res, chunk[1], chunk[2])
@@ -549,6 +641,16 @@ def replay(case):
             new, mseq, msubs, rx = _build(case["start"], hist)
             check_queries(res, new, mseq, msubs, case)
             res.violations = [v for v in res.violations if v["case"].get("query") == case.get("query")] or res.violations
+    elif L == "CH":
+        sub = Result()
+        run_chains(sub, case["n"], 0)
+        for k in (1, 2, 3):
+            run_chains(sub, case["n"], k)
+        res.violations = [v for v in sub.violations if v["case"]["perm"] == case["perm"]]
+    elif L == "CC":
+        sub = Result()
+        run_concat(sub, case["sel"][0])
+        res.violations = [v for v in sub.violations if v["case"]["sel"] == case["sel"]]
     elif L == "U":
         sub = Result()
         run_bounds(sub, case["idx"])
